@@ -779,7 +779,7 @@ pub(crate) fn run(
         }
 
         #[cfg(feature = "verif-hooks")]
-        verif::at_backtrack();
+        verif::at_backtrack(&state);
         backtrack_count += 1;
         if backtrack_count > options.backtrack_limit {
             #[cfg(feature = "verif-hooks")]
